@@ -34,10 +34,11 @@ class Chooser:
         return c
 
 
-def explore(run, bound, on_exec=None, max_execs=None, first_alt_only=False):
+def explore(run, bound, on_exec=None, max_execs=None, start=None):
     """run(chooser) -> observation (any).  Enumerates every choice sequence whose
-    total deviation cost is <= bound.  Returns (executions, points)."""
-    stack = [((), None)]
+    total deviation cost is <= bound.  Returns (executions, new points, capped).
+    start: list of prefixes whose subtrees are to be explored (default: the root)."""
+    stack = [(tuple(p), None) for p in reversed(start)] if start is not None else [((), None)]
     n_exec = 0
     n_points = 0
     capped = False
@@ -68,3 +69,32 @@ def explore(run, bound, on_exec=None, max_execs=None, first_alt_only=False):
                         stack.append((tuple(ch.choices[:i]) + (alt,), tuple(ch.points[:i + 1])))
             spent += ch.costs[i]
     return n_exec, n_points, capped
+
+
+def split(run, bound, depth, on_exec=None):
+    """Explore the top `depth` levels of the tree in this process (calling on_exec for each
+    execution) and return the prefixes of the unexplored subtrees below, so that they can be
+    handed to workers as explore(..., start=[prefix]).  Every execution of the bounded tree is
+    run exactly once overall: a node is executed where its prefix is first run."""
+    level = [()]
+    n_exec = 0
+    for _ in range(depth):
+        nxt = []
+        for prefix in level:
+            ch = Chooser(prefix)
+            obs = run(ch)
+            n_exec += 1
+            if on_exec is not None:
+                on_exec(ch, obs)
+            spent = 0
+            for i in range(len(ch.points)):
+                if i >= len(prefix):
+                    n, label, cost = ch.points[i]
+                    if spent + cost <= bound:
+                        for alt in range(1, n):
+                            nxt.append(tuple(ch.choices[:i]) + (alt,))
+                spent += ch.costs[i]
+        level = nxt
+        if not level:
+            break
+    return level, n_exec
